@@ -351,7 +351,7 @@ CLAIMED = {
              "transfer), `fast_lint_clean`, `tables_regex_fast`, `tables_primitive`. Partial: the theorem is at statement "
              "level (`RMod.toFParsed` = what the regular expressions deliver, `RMod.toModule` = what the grammar delivers); "
              "that the real regexes / lark deliver exactly these for every legal layout is tied by the differential run "
-             "(regex engine vs CPython `re` on the extracted patterns, text -> circuit exact) only. Text level (Props/C14Text.lean): `read_written_text` — on the text circuit_to_verilog emits, the module-extraction regular expression of the full reader (run by the regex engine) returns the whole module, so `read` is `parseNetlist` of that text; the corresponding theorem for the fast parser's regular expressions is in progress.",
+             "(regex engine vs CPython `re` on the extracted patterns, text -> circuit exact) only. Text level (Props/C14Text.lean): `read_written_text` — on the text circuit_to_verilog emits, the module-extraction regular expression of the full reader (run by the regex engine) returns the whole module, so `read` is `parseNetlist` of that text; Character level for the fast parser (Props/C14FastText.lean): `extract_text'` — on the text of a restricted netlist in the writer's layout the seven regular-expression passes of fast_verilog.py deliver exactly the statements (names: identifiers other than six keywords), and `fast_text_agrees_full` — the fast parser run on that TEXT and the full parser's assembly return the same circuit up to the constants' names; other layouts remain differential.",
         note=TRUST + " `Restricted`: every net an input or driven at most once (floating wires allowed since the K38 "
              "repair), declared outputs driven, unary gates have one operand, named ports of a known blackbox, names not "
              "colliding with either parser's constant nodes.",
